@@ -462,7 +462,7 @@ def _e2e_api(args, sh):
     with tempfile.NamedTemporaryFile("w", suffix=".py", delete=False) as f:
         f.write(_E2E_SCRIPT)
         path = f.name
-    exe = [shutil.which("isopy")] if shutil.which("isopy") else ["/venv/bin/python"]
+    from vlib.e2e import runner as _runner; exe = _runner()
     try:
         p = subprocess.run(exe + [path, vlib.REPO, op, str(int(args["dv"]))], capture_output=True, text=True, timeout=120)
     finally:
